@@ -139,39 +139,42 @@ def normalObj (E : DEnv) (d k : Nat) : Obj :=
              else [0, 0, 0, 0, 0, 0],
     children := (List.range a).map (fun r => (nid T (d + 1) (k * a + r) : Int)) }
 
-/-- the memory objects hanging from (d, k): for each slot an optional MemCache followed by the NUMA node -/
-def memObjs (E : DEnv) (d k : Nat) : List Obj :=
+/-- memory child `s` of (d, k): an optional MemCache followed by the NUMA node -/
+def memSlot (E : DEnv) (d k s : Nat) : List Obj :=
   let T := E.T
   let ms := T.mem[d]?.getD []
   let cs := cpusetOf E d k
-  (List.range ms.length).flatMap (fun s =>
-    let m := ms[s]?.getD ⟨0, 0⟩
-    let pos := postPos T (numaCnt T) d k s
-    let os := E.t.numaIdx[pos]?.getD 0
-    let ns := 1 <<< os
-    let mid := memId T d k s
-    let nidd := numaId T d k s
-    let hasmc := m.msc ≠ 0
-    let sibNext : Int := if s + 1 < ms.length then (memId T d k (s + 1) : Int) else -1
-    let sibPrev : Int := if s > 0 then (memId T d k (s - 1) : Int) else -1
-    let numa : Obj := { blankObj with
-      id := nidd, type := tNUMA, depth := -3, lidx := pos, osidx := os, gp := nidd,
-      parent := if hasmc then (mid : Int) else (nid T d k : Int), rank := if hasmc then 0 else s,
-      nextSib := if hasmc then -1 else sibNext, prevSib := if hasmc then -1 else sibPrev,
-      nextCousin := neighbour E.numaL pos true, prevCousin := neighbour E.numaL pos false,
+  let m := ms[s]?.getD ⟨0, 0⟩
+  let pos := postPos T (numaCnt T) d k s
+  let os := E.t.numaIdx[pos]?.getD 0
+  let ns := 1 <<< os
+  let mid := memId T d k s
+  let nidd := numaId T d k s
+  let hasmc := m.msc ≠ 0
+  let sibNext : Int := if s + 1 < ms.length then (memId T d k (s + 1) : Int) else -1
+  let sibPrev : Int := if s > 0 then (memId T d k (s - 1) : Int) else -1
+  let numa : Obj := { blankObj with
+    id := nidd, type := tNUMA, depth := -3, lidx := pos, osidx := os, gp := nidd,
+    parent := if hasmc then (mid : Int) else (nid T d k : Int), rank := if hasmc then 0 else s,
+    nextSib := if hasmc then -1 else sibNext, prevSib := if hasmc then -1 else sibPrev,
+    nextCousin := neighbour E.numaL pos true, prevCousin := neighbour E.numaL pos false,
+    cpuset := some cs, ccpuset := some cs, nodeset := some ns, cnodeset := some ns, totalMem := m.mem,
+    attrs := [(m.mem : Int), 1, 0, 0, 0, 0] }
+  if hasmc then
+    let mpos := postPos T (mcCnt T) d k (mcSlot T d s)
+    let mc : Obj := { blankObj with
+      id := mid, type := tMEMCACHE, depth := -8, lidx := mpos, osidx := -1, gp := mid,
+      parent := (nid T d k : Int), rank := s, marity := 1, nextSib := sibNext, prevSib := sibPrev,
+      nextCousin := neighbour E.mcL mpos true, prevCousin := neighbour E.mcL mpos false,
+      memFirst := (nidd : Int),
       cpuset := some cs, ccpuset := some cs, nodeset := some ns, cnodeset := some ns, totalMem := m.mem,
-      attrs := [(m.mem : Int), 1, 0, 0, 0, 0] }
-    if hasmc then
-      let mpos := postPos T (mcCnt T) d k (mcSlot T d s)
-      let mc : Obj := { blankObj with
-        id := mid, type := tMEMCACHE, depth := -8, lidx := mpos, osidx := -1, gp := mid,
-        parent := (nid T d k : Int), rank := s, marity := 1, nextSib := sibNext, prevSib := sibPrev,
-        nextCousin := neighbour E.mcL mpos true, prevCousin := neighbour E.mcL mpos false,
-        memFirst := (nidd : Int),
-        cpuset := some cs, ccpuset := some cs, nodeset := some ns, cnodeset := some ns, totalMem := m.mem,
-        attrs := [(m.msc : Int), 1, 64, 0, 0, 0] }
-      [mc, numa]
-    else [numa])
+      attrs := [(m.msc : Int), 1, 64, 0, 0, 0] }
+    [mc, numa]
+  else [numa]
+
+/-- the memory objects hanging from (d, k) -/
+def memObjs (E : DEnv) (d k : Nat) : List Obj :=
+  (List.range (E.T.mem[d]?.getD []).length).flatMap (memSlot E d k)
 
 /-- objects of the subtree of (d, k) in the DFS order of harness/dump.h: the object, its normal children, its memory children -/
 def genObjs (E : DEnv) : Nat → Nat → Nat → List Obj
